@@ -7,17 +7,20 @@
 #include "system/ThreadPool.h"
 #include "system/SetupSystem.h"
 #include "syslog/SysLog.h"
+#include "util/NetworkUtilityFunctions.h"
 
 using namespace muscle;
 const char * vf_harness_name = "c19_threadpool";
 
 struct Log
 {
-   int active[4]; int globalActive; int maxGlobal; std::vector<int> handled[4]; bool submissionBetweenLastAndFinish; int poolSize; std::string desc; vsched::Scheduler * sc; uint8_t yields;
-   Log() : globalActive(0), maxGlobal(0), submissionBetweenLastAndFinish(false), poolSize(0), sc(NULL), yields(1) {for (int i=0; i<4; i++) active[i] = 0;}
+   int active[4]; int sent[4]; bool switching[4]; int followUps[4]; int followUpsSent; int globalActive; int maxGlobal; std::vector<int> handled[4]; bool submissionBetweenLastAndFinish; int poolSize; std::string desc; vsched::Scheduler * sc; uint8_t yields;
+   Log() : globalActive(0), maxGlobal(0), submissionBetweenLastAndFinish(false), poolSize(0), sc(NULL), yields(1) {for (int i=0; i<4; i++) {active[i] = 0; sent[i] = 0; switching[i] = false; followUps[i] = 0;} followUpsSent = 0;}
 };
 static Log * g_log = NULL;
 
+class Client;
+static Client * g_clients[4] = {NULL, NULL, NULL, NULL};
 class Client : public IThreadPoolClient
 {
 public:
@@ -31,6 +34,14 @@ protected:
       if (l.globalActive > l.poolSize) vf::Fail("%d handlers active at once with a pool of %d threads (%s)", l.globalActive, l.poolSize, l.desc.c_str());
       {const uint64_t until = l.sc->Switches()+(uint64_t)l.yields*40; do {l.sc->YieldNow();} while(l.sc->Switches() < until);}   // the handler takes a while (0, 40, 80 or 120 context switches): other threads get to run inside it
       l.handled[_id].push_back((int)msg()->what);
+      // follow-up work: while the client's owner is busy moving it to another pool (and therefore submits nothing itself), the handler hands the pool the next Message
+      if ((l.switching[_id])&&(l.followUps[_id] > 0))
+      {
+         l.followUps[_id]--;
+         MessageRef m = GetMessageFromPool((uint32)(_id*1000+l.sent[_id]));
+         if (SendMessageToThreadPool(m).IsError()) vf::Fail("a handler's follow-up SendMessageToThreadPool failed while its client was being moved to another pool (%s)", l.desc.c_str());
+         l.sent[_id]++; l.followUpsSent++;
+      }
       l.sc->YieldNow();
       l.active[_id]--; l.globalActive--;
    }
@@ -40,30 +51,30 @@ private:
 
 extern "C" int vf_run_case(const uint8_t * data, size_t size)
 {
-   static CompleteSetupSystem * css = NULL; if (css == NULL) {css = new CompleteSetupSystem; SetConsoleLogLevel(MUSCLE_LOG_NONE);}
+   static CompleteSetupSystem * css = NULL; if (css == NULL) {css = new CompleteSetupSystem; SetConsoleLogLevel(MUSCLE_LOG_NONE); ConstSocketRef wa, wb; (void) CreateConnectedSocketPair(wa, wb);   /* runs the function-local static initialisers of the socket pool now: with two pools, two logical threads could otherwise meet in one of them, which blocks in the C++ runtime where the scheduler cannot see it */}
    if (size < 6) return 0;
    vf::BS bs(data, size);
    const int P = 1+bs.u8()%3, NC = 1+bs.u8()%4; int NS = 1+bs.u8()%3; if (NS > NC) NS = NC;
-   Log log; g_log = &log; log.poolSize = P; const uint8_t yb = bs.u8(); log.yields = (uint8_t)(yb%4); const bool earlyShutdown = ((yb>>2)%4 == 0);     // earlyShutdown: the pool is destroyed with clients still registered and Messages possibly pending or being handled
+   Log log; g_log = &log; log.poolSize = P; const uint8_t yb = bs.u8(); log.yields = (uint8_t)(yb%4); const bool earlyShutdown = ((yb>>2)%4 == 0); const bool twoPools = (((yb>>4)&1) != 0); const int P2 = 1+(yb>>5)%3; if (twoPools) log.poolSize = P+P2;     // earlyShutdown: the pool is destroyed with clients still registered and Messages possibly pending or being handled
    // per-submitter script: ops = (client, kind) with kind 0..5 send, 6 unregister+verify+re-register
    std::vector<std::vector<uint8_t> > scripts(NS); for (int s=0; s<NS; s++) {const uint32 n = 1+bs.u8()%10; for (uint32 i=0; i<n; i++) scripts[s].push_back(bs.u8());}
-   char desc[160]; snprintf(desc, sizeof(desc), "pool of %d, %d client(s), %d submitting thread(s), handlers last %u context switches", P, NC, NS, log.yields*40u); log.desc = desc;
+   char desc[160]; if (twoPools) snprintf(desc, sizeof(desc), "pools of %d and %d, %d client(s), %d submitting thread(s), handlers last %u context switches", P, P2, NC, NS, log.yields*40u); else snprintf(desc, sizeof(desc), "pool of %d, %d client(s), %d submitting thread(s), handlers last %u context switches", P, NC, NS, log.yields*40u); log.desc = desc;
    if (vf::Verbose()) fprintf(stderr, "config: %s\n", desc);
 
    vsched::ByteSource src(bs, (uint8_t)(bs.flip() ? 0x80 : 0xC0)); vsched::Scheduler sc(src); sc.SetContext(desc); log.sc = &sc;
-   ThreadPool * pool = NULL; Client * clients[4] = {NULL, NULL, NULL, NULL};
+   ThreadPool * pool = NULL; ThreadPool * pool2 = NULL; ThreadPool * curPool[4] = {NULL, NULL, NULL, NULL}; uint32 switches = 0; bool sawSwitchWithBacklog = false; Client * clients[4] = {NULL, NULL, NULL, NULL};
    volatile bool go = false; volatile int doneCount = 0; uint32 totalSubmitted = 0, unregisters = 0; bool sawUnregisterWithBacklog = false; size_t handledAtShutdown[4] = {0, 0, 0, 0};
 
    sc.Spawn([&]{   // main logical thread: owns the pool
-      pool = new ThreadPool((uint32)P);
-      for (int c=0; c<NC; c++) {clients[c] = new Client(c); clients[c]->SetThreadPool(pool);}
+      pool = new ThreadPool((uint32)P); if (twoPools) pool2 = new ThreadPool((uint32)P2);
+      for (int c=0; c<NC; c++) {clients[c] = new Client(c); clients[c]->SetThreadPool(pool); curPool[c] = pool;}
       go = true;
       sc.WaitUntil([&]{return doneCount == NS;}, "submitters to finish");
       if (earlyShutdown)
       {
          // the pool goes first: its shutdown must return (the scheduler reports a deadlock otherwise), must leave no handler running, and what was handled up to
          // then is an in-order, duplicate-free prefix of what each client submitted; Messages still pending are dropped with the pool
-         delete pool; pool = NULL;
+         delete pool; pool = NULL; delete pool2; pool2 = NULL;
          if (log.globalActive != 0) vf::Fail("%d handler(s) still running after the pool's destructor returned (%s)", log.globalActive, desc);
          for (int c=0; c<NC; c++) {handledAtShutdown[c] = log.handled[c].size(); for (size_t k=0; k<log.handled[c].size(); k++) if (log.handled[c][k] != c*1000+(int)k) vf::Fail("client %d: Message %zu handled out of order or twice before the pool was shut down (got #%d) (%s)", c, k, log.handled[c][k]-c*1000, desc);}
          for (int c=0; c<NC; c++) delete clients[c];   // the pool's shutdown un-registered them
@@ -71,18 +82,31 @@ extern "C" int vf_run_case(const uint8_t * data, size_t size)
       else
       {
          for (int c=0; c<NC; c++) delete clients[c];      // all unregistered by their submitters
-         delete pool;                                     // shutdown: must return
+         delete pool; delete pool2;                       // shutdown: must return
       }
    });
    for (int s=0; s<NS; s++) sc.Spawn([&, s]{
       sc.WaitUntil([&]{return go == true;}, "pool to be created");
-      int sent[4] = {0, 0, 0, 0}; int base[4] = {0, 0, 0, 0};   // base: first sequence number of the current registration period
+      int * sent = log.sent; int base[4] = {0, 0, 0, 0};   // base: first sequence number of the current registration period
       std::vector<int> mine; for (int c=s; c<NC; c+=NS) mine.push_back(c);
       for (size_t i=0; i<=scripts[s].size(); i++)
       {
          const bool tail = (i == scripts[s].size());
          const uint8_t b = tail ? 0 : scripts[s][i]; const int c = mine[(b>>3)%mine.size()]; const uint8_t kind = b%8;
-         if ((tail == false)&&(kind <= 5))
+         if ((tail == false)&&(kind == 7)&&(twoPools))
+         {
+            // move the client straight to the other pool (from this non-pool thread): that un-registers it from the pool it is in, which is documented to return only after
+            // everything submitted has been handled; the client's handler may hand in follow-up work in the meantime
+            ThreadPool * to = (curPool[c] == pool) ? pool2 : pool; const int sentBefore = sent[c];
+            if ((int)log.handled[c].size() < sent[c]) sawSwitchWithBacklog = true;
+            log.followUps[c] = (b>>6)%3; log.switching[c] = true;
+            clients[c]->SetThreadPool(to); switches++;
+            log.switching[c] = false; curPool[c] = to;
+            if ((int)log.handled[c].size() < sentBefore) vf::Fail("moving client %d to another pool returned with %zu of the %d Messages submitted before it handled (%s)", c, log.handled[c].size(), sentBefore, desc);
+            if (log.active[c] != 0) vf::Fail("a handler of client %d is still running in the old pool after the move to another pool returned (%s)", c, desc);
+            for (size_t k=0; k<log.handled[c].size(); k++) if (log.handled[c][k] != c*1000+(int)k) vf::Fail("client %d: Message %zu handled out of order or twice around a move to another pool (got #%d) (%s)", c, k, log.handled[c][k]-c*1000, desc);
+         }
+         else if ((tail == false)&&(kind <= 5))
          {
             if ((log.active[c] == 0)&&(log.handled[c].size() < (size_t)sent[c])) {/* queued, not being handled */}
             MessageRef m = GetMessageFromPool((uint32)(c*1000+sent[c]));
@@ -101,7 +125,7 @@ extern "C" int vf_run_case(const uint8_t * data, size_t size)
                if ((int)log.handled[cc].size() != sent[cc]) vf::Fail("UnregisterClient returned with %zu of %d submitted Messages of client %d handled (%s)", log.handled[cc].size(), sent[cc], cc, desc);
                if (log.active[cc] != 0) vf::Fail("a handler of client %d is still running after unregistration returned (%s)", cc, desc);
                for (size_t k=0; k<log.handled[cc].size(); k++) if (log.handled[cc][k] != cc*1000+(int)k) vf::Fail("client %d: Message %zu handled out of order or twice (got #%d) (%s)", cc, k, log.handled[cc][k]-cc*1000, desc);
-               if (tail == false) clients[cc]->SetThreadPool(pool);    // register again and carry on
+               if (tail == false) {clients[cc]->SetThreadPool(curPool[cc]);}    // register again and carry on
             }
          }
       }
@@ -111,12 +135,13 @@ extern "C" int vf_run_case(const uint8_t * data, size_t size)
    sc.Run();
    g_log = NULL;
    uint32 handledTotal = 0; for (int c=0; c<4; c++) handledTotal += (uint32) log.handled[c].size();
+   totalSubmitted += (uint32) log.followUpsSent;
    if ((earlyShutdown == false)&&(handledTotal != totalSubmitted)) vf::Fail("%u Messages submitted, %u handled (%s)", totalSubmitted, handledTotal, desc);
    if (earlyShutdown) {for (int c=0; c<NC; c++) if (log.handled[c].size() != handledAtShutdown[c]) vf::Fail("client %d: a Message was handled after the pool's destructor had returned (%s)", c, desc); vf::Count("case_pool_destroyed_with_clients_registered"); if (handledTotal < totalSubmitted) vf::Count("case_pool_destroyed_with_messages_pending");}
 
    vf::Count("context_switches", sc.Switches()); vf::Count("preemptions", sc.Preemptions()); vf::Count("messages_handled", handledTotal); vf::Count("unregistrations_checked", unregisters);
-   if (log.maxGlobal >= 2) vf::Count("case_handlers_ran_in_parallel"); if (NC > P) vf::Count("case_more_clients_than_pool_threads"); if (sawUnregisterWithBacklog) vf::Count("case_unregister_with_messages_outstanding");
-   const bool nontrivial = (sawUnregisterWithBacklog)||((log.maxGlobal >= 2)&&(sc.Preemptions() >= 1))||((earlyShutdown)&&(handledTotal < totalSubmitted));
+   if (log.maxGlobal >= 2) vf::Count("case_handlers_ran_in_parallel"); if (NC > P) vf::Count("case_more_clients_than_pool_threads"); if (sawUnregisterWithBacklog) vf::Count("case_unregister_with_messages_outstanding"); if (sawSwitchWithBacklog) vf::Count("case_client_moved_to_another_pool_with_messages_outstanding"); if (log.followUpsSent) vf::Count("case_handler_submitted_follow_up_during_a_pool_move"); vf::Count("pool_moves_checked", switches);
+   const bool nontrivial = (sawUnregisterWithBacklog)||(sawSwitchWithBacklog)||((log.maxGlobal >= 2)&&(sc.Preemptions() >= 1))||((earlyShutdown)&&(handledTotal < totalSubmitted));
    if (nontrivial) {uint64_t h = vf::HashStr(desc); for (size_t i=0; i<src.trace.size(); i++) h = vf::HashMix(h, src.trace[i]); for (int s=0; s<NS; s++) h = vf::Hash64(scripts[s].data(), scripts[s].size(), h); vf::NonTrivial(h); if (vf::WantSample()) vf::Sample(std::string(desc)+" | "+std::to_string(totalSubmitted)+" Messages, "+std::to_string(unregisters)+" unregistrations, max "+std::to_string(log.maxGlobal)+" handlers at once, "+std::to_string(sc.Switches())+" switches");}
    return 0;
 }
